@@ -2,8 +2,8 @@
 (* D-checks for C01 / C12 on the generator's own state space (no code involved):             *)
 (*  L2vsL1     the implementation-shaped model SchemaImpl!Accepts agrees with the reference   *)
 (*             semantics SchemaSem!Valid on every (schema, value) of the universe in the       *)
-(*             float64 input form, and in the json.Number form deviates only inside the two    *)
-(*             listed finding classes (FindingsC01);                                           *)
+(*             float64 input form, and in the json.Number form deviates only inside the        *)
+(*             listed open finding class (FindingsC01);                                           *)
 (*  Laws       algebraic laws that guard the transcription of the reference semantics:         *)
 (*             not = complement, allOf<<s>> = s, anyOf<<s>> = s, oneOf<<s>> = s (non-null),    *)
 (*             enum <<v>> accepts v;                                                           *)
@@ -17,7 +17,7 @@ L2vsL1 ==
    \A i \in DOMAIN Vals :
       LET v == Vals[i]  want == Valid(s, v, "plain") IN
       /\ Accepts(s, v, "f64") = want
-      /\ (Accepts(s, v, "num") # want) => (EnumNestedNumber(s, v) \/ UniqueNumberSpelling(s, v))
+      /\ (Accepts(s, v, "num") # want) => UniqueNumberSpelling(s, v)      \* (the enum deviation was repaired: bc49a97)
 
 Laws ==
    \A i \in NonNull :
@@ -27,6 +27,12 @@ Laws ==
       /\ Valid([anyOf |-> <<s>>], v, "plain") = Valid(s, v, "plain")
       /\ Valid([oneOf |-> <<s>>], v, "plain") = Valid(s, v, "plain")
       /\ Valid([enum |-> <<v>>], v, "plain")
+
+(* The laws speak about the outermost operator with Valid(s, .) as a black box: checking them for every wrapped    *)
+(* schema multiplies the cost of D without reaching another law.  quick: innermost level only (LawsInner);        *)
+(* thorough: also every wrapped schema before outer keywords are added (LawsNoOuter).  L2vsL1 runs on every state. *)
+LawsInner == wraps = 0 => Laws
+LawsNoOuter == (wraps = 0 \/ own = 0) => Laws
 
 Monotone ==
    wraps = 0 =>
